@@ -272,6 +272,18 @@ class ndarray_impl(metaclass=_NDMeta):
         shape = tuple(int(s) for s in shape) if not isinstance(shape, (int, rnp.integer)) else int(shape)
         return ndarray_impl(self.c.reshape(shape, **kw), self.dtype, self._sym)
 
+    def clip(self, a_min=None, a_max=None, **kw):
+        if kw:
+            raise ShimUnsupported(f'clip keyword arguments {sorted(kw)}')
+        if not self.sym and not _any_sym([a_min, a_max]):
+            return _from_real(self.typed().clip(_real_arg(a_min), _real_arg(a_max)))
+        r = self
+        if a_min is not None:
+            r = maximum(r, a_min)
+        if a_max is not None:
+            r = minimum(r, a_max)
+        return r.astype(self.dtype) if r.dtype != self.dtype else r
+
     def swapaxes(self, a, b):
         return ndarray_impl(self.c.swapaxes(a, b), self.dtype, self._sym)
 
